@@ -8,6 +8,7 @@ import (
 	"os"
 	"sort"
 	"strings"
+	"time"
 
 	"golang.org/x/tools/go/ssa"
 )
@@ -57,6 +58,7 @@ type Obl struct {
 }
 
 type Exec struct {
+	deadline time.Time // exploration budget (zero: none)
 	prog     *ssa.Program
 	nextObj  int
 	nextSt   int
@@ -992,10 +994,15 @@ func (e *Exec) panicState(s *State, fr *Frame, in ssa.Instruction, bad *Term, ki
 	e.obls = append(e.obls, o)
 }
 
+type budgetExceeded struct{}
+
 func (e *Exec) runBlock(s *State, fr *Frame, b *ssa.BasicBlock, start int, stop *ssa.BasicBlock) []Outcome {
 	var side []Outcome
 	for i := start; i < len(b.Instrs); i++ {
 		e.instrs++
+		if e.instrs&1023 == 0 && !e.deadline.IsZero() && time.Now().After(e.deadline) {
+			panic(budgetExceeded{})
+		}
 		if e.split != nil {
 			return append(side, Outcome{kind: OStop, st: s, msg: "split"})
 		}
@@ -1564,11 +1571,17 @@ func (e *Exec) step(s *State, fr *Frame, instr ssa.Instruction) bool {
 		case SliceV:
 			ok := Cmp("ult", idx, b.len_)
 			e.panicState(s, fr, in, Not(ok), "index out of range")
+			// invariant of every slice: off+len <= size of the backing store. A constant position
+			// beyond the store can only occur on an infeasible (lazily explored) path.
+			pos := Bin("bvadd", b.off, idx)
+			if n := len(e.cellsOf(s, b)); pos.isConst() && pos.val >= uint64(n) {
+				ok = False()
+			}
 			if ok.isFalse() {
 				return false
 			}
 			s.assume(ok)
-			fr.regs[in] = Ptr{b.obj, ext(b.path, PathEl{idx: Bin("bvadd", b.off, idx)})}
+			fr.regs[in] = Ptr{b.obj, ext(b.path, PathEl{idx: pos})}
 		case NilV:
 			e.panicState(s, fr, in, True(), "index of nil slice")
 			return false
